@@ -4,7 +4,7 @@ import json
 
 CHECKS = {
  "C01": ("relational runtime monitor at the View boundary: chain vs stand-alone parts vs Script/Probe/Tap-instrumented trees, bit identity at every step",
-         "Held on the executions explored: every unary wrapper over every inner view, every combinator over every pair, PFE/EFT in both slots, random triples and random trees with Probe leaves, three scalars. Exploration is the right level: the property is a relation between observable executions of the real code and the space (views x views x N x inputs) is sampled, not enumerable.",
+         "Held on the executions explored: every unary wrapper over every inner view, every combinator over every pair, PFE/EFT in both slots, random triples (a quarter of the inner views of pairs and triples already given values when the wrapper is constructed over them, one in sixteen a Constant leaf) and random trees with Probe leaves, three scalars. Exploration is the right level: the property is a relation between observable executions of the real code and the space (views x views x N x inputs) is sampled, not enumerable.",
          "harness Dyn/Script/Probe/Tap views; release profile; trials cut at the first non-finite inner output"),
  "C02": ("reference-model monitor: batch definitions over the last min(t,N) values evaluated from the recorded history in exact rational arithmetic; real code run at the exact scalar (equality at every step) and at f64 (a-priori rounding envelope)",
          "Held on the executions explored: 10 views x N grid x 18 input classes (ties, zeros, negatives, spikes entering/leaving, evictions of the current extremum, flat windows, zero bases - counted by the oracle) at both scalars, incl. the mean()/variance() getters, plus long-history trials (2600-9000 values, windows up to 250) and, at f64, histories of 66 000-135 000 values compared at every 997th step, around the 65 536th / 131 072nd value and at the end.",
@@ -13,7 +13,7 @@ CHECKS = {
          "Held on the executions explored: all 17 listed views x N grid x 6 prefix styles (lengths up to 4200 values; at the exact scalar cut to what 1.5 million exact operations pay for) x 4 suffix classes.",
          "documented hold steps (MyRSI flat window, Roc zero base) are identified by the exact oracle and skipped"),
  "C04": ("clause monitors (interval, constant, monotone, affine, defining recursion / kernel) on Sma, Ema, Alma at the exact scalar (exact inequalities and equalities) and at f64 (envelope)",
-         "Held on the executions explored: default and custom alpha / sigma (2..16) / offset (0..1), N grid, input classes with exact zeros and sign changes; the views sit over a Script inner view that delivers nothing for 0-3 updates while the raw inputs are unrelated noise.",
+         "Held on the executions explored: default and custom alpha / sigma (2..16) / offset (0..1), N grid, input classes with exact zeros and sign changes, a fifth of the streams quoted in units of 2^-600 .. 2^600 and constants down to 3e-18 and up to 1e200; the views sit over a Script inner view that delivers nothing for 0-3 updates while the raw inputs are unrelated noise.",
          "Alma: both weight-assignment readings the statements admit are accepted"),
  "C05": ("reference-model monitor: gains/losses over the N most recent values from the recorded history in exact arithmetic; equality at the exact scalar, negation relation, conditioning-aware tolerance at f64",
          "Held on the executions explored: Rsi and MyRSI x N grid (plus 100, 257, 300, 520) x 12 input classes, one f64 trial in six in subnormal units.",
@@ -43,7 +43,7 @@ CHECKS = {
          "Held on the executions explored: three views x eight stream shapes (new peaks after deeper troughs, equal peaks, monotone, flats, three decades, a high level with a small spread), a third of them with the view constructed over an inner view that already has a history, 16L ~ 3e5 (quick) / 1e7 (thorough), two streams beyond 2^24 values; f64 tolerance 1e-11 of scale (noise observed: 6e-14).",
          "positive inputs k/64 in [1,1000]"),
  "C14": ("pointwise oracle over Script children (outputs dictated), bit-exact comparison after every update; two-history statelessness relation",
-         "Held on the executions explored (all nine combinators x f64/f32/exact rational x seeded script pairs incl. zeros, -0, clip ties, denormals, None prefixes).",
+         "Held on the executions explored (all nine combinators x f64/f32/exact rational x seeded script pairs incl. zeros, -0, clip ties, denormals, adjacent floats, None prefixes; a third of Tanh's arguments where the function changes regime: 18..20 and 8..10 on a 2^-20 grid, 2^-34..2^-8, 2^5..2^60).",
          "children never relapse to None; libm tanh of the harness build is the one the crate reaches"),
  "C15": ("panic trap (catch_unwind + recording panic hook) around construction and every update()/last(), executed under rustc's run-time instrumentation (dev profile: debug assertions + overflow checks) and in the release profile",
          "Held on the executions explored: every view x full secondary-parameter grid x N (1..64 in thorough) x 18 input classes x stream lengths shorter than / about / far beyond the window, two-level chains with in-domain inner outputs, f64 and f32.",
